@@ -516,6 +516,15 @@ func (c *c16) judge(ops []string, out *c16Outcome, sr *sched.Result, evs []sched
 	cid++
 	hist = append(hist, porcupine.Operation{ClientId: cid, Input: schedIn{"observe"}, Output: obs, Call: out.endStamp + 1, Return: out.endStamp + 2})
 	r, _ := porcupine.CheckOperationsVerbose(c16SchedModel, hist, 10*time.Second)
+	// the competing Set carries the harness' own deadline (it would otherwise wait forever for a transaction that stays
+	// open); on a loaded machine the deadline can fire after the Set got the datastore and wrote to the device. That is a
+	// wall-clock artefact of the harness, not a schedule of the transaction manager: inconclusive.
+	for _, sop := range []string{"setB", "setA"} {
+		if e := out.results[sop]; r == porcupine.Illegal && strings.Contains(e, "deadline exceeded") && !strings.Contains(e, "still being processed") && (out.nameDev == "nb" || out.nameDev == "nc") {
+			res.Inconclusive("C16/competing-set-hit-the-harness-deadline-midway", "%s", where)
+			return
+		}
+	}
 	if r == porcupine.Illegal {
 		key := "C16/outcome-has-no-sequential-explanation"
 		switch {
@@ -614,5 +623,20 @@ func (c *c16) RunCase(w *core.Worker, idx int, seed uint64, res *core.CaseResult
 	sort.Strings(oc)
 	if len(ops) == 2 && (ops[0] == "confirm" || ops[0] == "cancel") {
 		res.Sample = map[string]any{"ops": ops, "schedules": runs, "outcomes": oc}
+	}
+}
+
+// PostProcess: the C16 binary is built with the race detector; data races are not part of the C16 statement, so reports are
+// counted in the evidence and surfaced as inconclusive observations (they would explain an outcome the judge cannot).
+func (c *c16) PostProcess(scratch string, agg *core.Aggregate) {
+	reports := core.ParseRaceLogs(scratch, "github.com/sdcio/data-server/")
+	agg.ExtraCounts["race_reports_distinct"] += len(reports)
+	for _, r := range reports {
+		agg.ExtraCounts["race_reports_total"] += r.Count
+		text := r.Text
+		if len(text) > 4000 {
+			text = text[:4000]
+		}
+		agg.Extra = append(agg.Extra, core.Finding{Verdict: core.Inconclusive, Key: "C16/race-detector-report/" + r.Key, Detail: fmt.Sprintf("%d reports\n%s", r.Count, text)})
 	}
 }
